@@ -11,7 +11,7 @@ RULE = ("exhaustive over the GET/SET/POLL payload tables, message ids, classes a
         "working tree (regenerated into gen/Tables.v on this run): the executable grammar wf_def of the Coq model is "
         "evaluated on every entry (WFTABLE) and compared with the recorded findings; search on the implementation: a "
         "nominal instance of every (message, mode) is built from keywords and parsed back in both bitfield views, the "
-        "attribute names are pairwise distinct and every definition attribute is exposed. non-trivial = table entries.")
+        "attribute names are pairwise distinct and every definition attribute is exposed; an instance with one and with two members per group parses in both views. non-trivial = table entries.")
 ASSUMPTIONS = ["this property is about data: the tie is the translator (fail-closed), not a behavioural correspondence"]
 
 KNOWN_IDS = {"KF-C16-length-collision": ["0:CFG-FIXSEED", "1:CFG-FIXSEED", "0:CFG-TP", "1:CFG-TP"],
@@ -40,6 +40,12 @@ def run(ctx):
     n = 0
     for mode, name, d, key in msggen.all_defs():
         tag = "%d:%s" % (mode, name)
+        sp = shape_problem(d)
+        if sp:
+            # not even the shape the documented grammar prescribes (the translator fails closed on it, so there is
+            # no model verdict): shown on the implementation by populating the offending member
+            ctx.fail("grammar-violation:shape", {"op": "TABLE", "mode": mode, "name": name}, "definition obeys the documented grammar", sp)
+            continue
         for bf in (True, False):
             n += 1
             ctx.evaluations += 1
@@ -50,6 +56,14 @@ def run(ctx):
             elif prob:
                 ctx.failures.append({"what": "known:" + tag, "input": {"op": "NOMINAL", "mode": mode, "name": name},
                                      "expected": "", "observed": prob})
+            # ... and a populated one (every counted / variable group repeated once and twice) parses
+            for cnt in (1, 2):
+                prob = populated_problem(mode, name, d, key, bf, cnt)
+                ctx.evaluations += 1
+                if prob and tag not in known_entries:
+                    ctx.fail("not-usable", {"op": "POPULATED", "mode": mode, "name": name, "bf": bf, "count": cnt},
+                             "an instance with %d member(s) per group parses" % cnt, prob)
+                    break
     ctx.exhaustive_parts.append("all %d (mode, definition) pairs x both bitfield views" % (n // 2))
     ctx.evaluations += len(fails)
 
@@ -106,6 +120,58 @@ def nominal_problem(mode, name, d, key, bf):
         return "definition attributes not exposed: %s" % missing[:5]
     if len(set(exp)) != len(exp):
         return "two payload fields share one attribute name: %s" % sorted(set(x for x in exp if exp.count(x) > 1))[:4]
+    return None
+
+
+def shape_problem(d, path=""):
+    """The documented shapes: name -> type string | [type string, scale number] | (bitfield type, {flag: type string})
+    | (group size: int, "None" or attribute name, {member definitions})."""
+    if not isinstance(d, dict):
+        return "%s: a definition must be a dict, found %s" % (path or "<top>", type(d).__name__)
+    for k, v in d.items():
+        here = "%s%s" % (path, k)
+        if not isinstance(k, str):
+            return "%s: attribute names are strings" % here
+        if isinstance(v, str):
+            continue
+        if isinstance(v, list):
+            if len(v) != 2 or not isinstance(v[0], str) or not isinstance(v[1], (int, float)) or isinstance(v[1], bool):
+                return "%s: a scaled attribute is [type, scale]; found %r" % (here, v)
+            continue
+        if isinstance(v, tuple):
+            if len(v) != 2 or not isinstance(v[1], dict):
+                return "%s: a group / bitfield is (size or type, {members}); found %r" % (here, v)[:200]
+            if v[0] in msggen.BITF:
+                for fk, ft in v[1].items():
+                    if not isinstance(fk, str) or not isinstance(ft, str):
+                        return "%s.%s: a bit flag is name -> type string" % (here, fk)
+                continue
+            if not (isinstance(v[0], int) and not isinstance(v[0], bool)) and not isinstance(v[0], str):
+                return "%s: group size must be an int, 'None' or an attribute name; found %r" % (here, v[0])
+            r = shape_problem(v[1], here + ".")
+            if r:
+                return r
+            continue
+        return "%s: unexpected %s in a definition" % (here, type(v).__name__)
+    return None
+
+
+def populated_problem(mode, name, d, key, bf, cnt):
+    import random
+    try:
+        g = msggen.Gen(random.Random(7), d, mode, name, key, cnt, "zero")
+        p = g.payload()
+        if not g.satisfies_variant(p):
+            return None
+    except Exception as e:  # pylint: disable=broad-except
+        return "definition cannot be laid out: %s: %s" % (type(e).__name__, str(e)[:100])
+    if key[0:2] in (b"\x06\x8b", b"\x06\x8a"):
+        return None          # key/value lists: C14
+    try:
+        with impl.quiet():
+            UBXReader.parse(msggen.frame(key, p), msgmode=mode, parsebitfield=bf)
+    except Exception as e:  # pylint: disable=broad-except
+        return "%s: %s" % (type(e).__name__, str(e)[:120])
     return None
 
 
